@@ -4,12 +4,13 @@
    DefaultTrackerHandler), for ARBITRARY histories, tolerances, source sets and result contents.
 
    Vocabulary (Model/Tracker.v):  delivered cfg h = the (user result, optimizer-domain partner) pairs of
-   the FINISHED_EVALUATION events of h that carry results and come from a tracked source, in delivery
-   order;  candidate tol p = the optimizer-domain partner is a function result with functions, no
+   the FINISHED_EVALUATION events of h that carry results, come from a tracked source and are emitted on the
+   handler's plan or on a plan nested below it (sees = reaches && accepts), in delivery order -- the results
+   of one event (a batch) in their order inside the event;  candidate tol p = the optimizer-domain partner is a function result with functions, no
    reported violation exceeds tol (None: no test), and its weighted objective is not NaN;
    oval = that objective;  stored = what Plan.get(tracker, "results") returns. *)
 From Coq Require Import QArith ZArith List Bool Arith.
-From Ropt Require Import Base.Num Model.Tracker Proofs.Tracker.
+From Ropt Require Import Base.Num Base.ListX Model.Tracker Proofs.Tracker.
 Import ListNotations.
 Open Scope Q_scope.
 
@@ -42,8 +43,59 @@ Proof. exact best_held_feasible. Qed.
    infeasible results, another source, another event type, no "results" -- changes nothing. *)
 Theorem C12_never_displaced : forall cfg st ev, c_what cfg = Best ->
   (forall p, In p (delivered cfg [ev]) -> candidate (c_tol cfg) p = false) ->
-  stored (handle_event cfg st ev) = stored st /\ resync (handle_event cfg st ev) = resync st.
+  stored (deliver cfg st ev) = stored st /\ resync (deliver cfg st ev) = resync st.
 Proof. exact best_frame. Qed.
+
+(* Events from another source, of another type, without results, or emitted on a plan that is not the
+   handler's plan or nested below it, do not touch the handler at all (any tracker kind, whole state);
+   so a history and its sub-history of seen events are indistinguishable. *)
+Theorem C12_unseen_is_identity : forall cfg st ev, sees cfg ev = false -> deliver cfg st ev = st.
+Proof. exact deliver_unseen. Qed.
+
+Theorem C12_only_seen_events_matter : forall cfg h st,
+  track cfg st (map Emit h) = track cfg st (map Emit (filter (sees cfg) h)).
+Proof. exact track_filter_seen. Qed.
+
+(* An event carrying several results (parallel / population methods) is the same as delivering the two
+   halves of any split of the batch as two consecutive events: only the delivery order matters, not how
+   the results are grouped into events (both tracker kinds, any start state). *)
+Theorem C12_batch_is_sequence : forall cfg st ev l1 l2, e_items ev = l1 ++ l2 ->
+  stored (deliver cfg st ev) = stored (deliver cfg (deliver cfg st (with_items ev l1)) (with_items ev l2)).
+Proof. exact batch_split. Qed.
+
+(* From ANY handler state that holds a result with a defined comparison objective o (in the middle of a
+   run; after Plan.set replaced the stored result, see C12_put_new / C12_reput_noop): the held result
+   is kept iff no later candidate is strictly below o, otherwise the first argmin of the later candidates
+   is held, and it is strictly below o. *)
+Theorem C12_best_from_any_state : forall cfg st h bid bu bt o, c_what cfg = Best ->
+  resync st = Some (bid, bu, bt) -> f_obj bt = Some o ->
+  (stored (track cfg st (map Emit h)) = Some (bid, bu) /\
+     forall q, In q (delivered cfg h) -> candidate (c_tol cfg) q = true -> o <= oval (snd q))
+  \/ (exists d1 p d2, delivered cfg h = d1 ++ p :: d2 /\
+        stored (track cfg st (map Emit h)) = Some (i_id (fst p), i_u (fst p)) /\
+        candidate (c_tol cfg) p = true /\ oval (snd p) < o /\
+        (forall q, In q d1 -> candidate (c_tol cfg) q = true -> oval (snd p) < oval (snd q)) /\
+        (forall q, In q d2 -> candidate (c_tol cfg) q = true -> oval (snd p) <= oval (snd q))).
+Proof. exact best_from_state_held. Qed.
+
+(* Plan.set(tracker, "results", r) with an object other than the one the handler compared last: r is
+   compared through the only objective the handler can see of it;  with the object already held: a no-op
+   (in particular the optimizer-domain partner keeps being the one compared). *)
+Theorem C12_put_new : forall cfg st id u, (forall oid ou ot, optimal st = Some (oid, ou, ot) -> oid <> id) ->
+  resync (step cfg st (Put (Some (id, u)))) = Some (id, u, u).
+Proof. exact resync_put_new. Qed.
+
+Theorem C12_reput_noop : forall cfg st v, stored st = Some v -> step cfg st (Put (Some v)) = st.
+Proof. exact reput_noop. Qed.
+
+(* Once a result is held, a result is held ever after and its optimizer-domain objective never rises. *)
+Theorem C12_best_monotone : forall cfg h1 h2 id1 u1, c_what cfg = Best ->
+  stored (track cfg init (map Emit h1)) = Some (id1, u1) ->
+  exists p1 p2, In p1 (delivered cfg h1) /\ In p2 (delivered cfg (h1 ++ h2)) /\
+    id1 = i_id (fst p1) /\ u1 = i_u (fst p1) /\
+    stored (track cfg init (map Emit (h1 ++ h2))) = Some (i_id (fst p2), i_u (fst p2)) /\
+    oval (snd p2) <= oval (snd p1).
+Proof. exact best_monotone. Qed.
 
 (* ... and never blocks: a valid result delivered after any number of such events is retained. *)
 Theorem C12_never_blocked : forall cfg h ev p, c_what cfg = Best ->
@@ -78,47 +130,69 @@ Theorem C12_reset : forall cfg st h1 h2,
   stored (track cfg st (h1 ++ Put None :: map Emit h2)) = stored (track cfg init (map Emit h2)).
 Proof. exact reset_forgets. Qed.
 
-(* BasicOptimizer (one optimizer step `sid`, one 'best' tracker on {sid}) reports exactly the first
-   argmin over ALL result pairs of the run's FINISHED_EVALUATION events. *)
-Theorem C12_basic_optimizer : forall sid tol evs, (forall ev, In ev evs -> e_src ev = sid) ->
+(* BasicOptimizer (a fresh plan, one optimizer step `sid`, one 'best' tracker on {sid} with the given
+   constraint_tolerance -- any, including None and 0) reports exactly the first argmin over ALL result
+   pairs of the run's FINISHED_EVALUATION events. *)
+Theorem C12_basic_optimizer : forall sid tol evs, basic_run sid evs ->
   match basic_optimizer sid tol evs with
-  | None => forall p, In p (all_pairs evs) -> candidate (Some tol) p = false
+  | None => forall p, In p (all_pairs evs) -> candidate tol p = false
   | Some id => exists d1 p d2, all_pairs evs = d1 ++ p :: d2 /\ id = i_id (fst p) /\
-      candidate (Some tol) p = true /\
-      (forall q, In q d1 -> candidate (Some tol) q = true -> oval (snd p) < oval (snd q)) /\
-      (forall q, In q d2 -> candidate (Some tol) q = true -> oval (snd p) <= oval (snd q))
+      candidate tol p = true /\
+      (forall q, In q d1 -> candidate tol q = true -> oval (snd p) < oval (snd q)) /\
+      (forall q, In q d2 -> candidate tol q = true -> oval (snd p) <= oval (snd q))
   end.
 Proof. exact basic_optimizer_spec. Qed.
 
-(* non-vacuity: a maximisation history with a NaN first result, an infeasible better result, a better
-   result from another source, a gradient, a tie and a reset *)
+(* What the correspondence reads after the k-th operation (trace) is the state all theorems speak about. *)
+Theorem C12_trace_is_track : forall cfg h st k, (k < length h)%nat ->
+  nth k (trace cfg st h) None = stored_id (track cfg st (firstn (S k) h)).
+Proof. exact trace_nth. Qed.
+
+(* non-vacuity: a maximisation history with a NaN first result, a batch (worse, gradient), an infeasible
+   better result, a better result from another source, a better result emitted on an unrelated plan, a
+   feasible result at the tolerance, a tie, and a reset; a tracker on the nested plan 1 sees only the
+   events emitted there *)
 Example C12_example :
   let tol := Q_ 1 10000000000 in
   let F (o : oQ) (v : Q) := {| f_isfun := true; f_hasf := true; f_obj := o; f_viol := Some [Some [v]; None; None] |} in
   let G := {| f_isfun := false; f_hasf := false; f_obj := None; f_viol := None |} in
   let I id (o : oQ) v := {| i_id := id; i_u := F (option_map Qopp o) v; i_t := F o v |} in
-  let E src items := {| e_type := 2; e_src := src; e_has_results := true; e_has_transformed := true; e_items := items |} in
-  let h := [E 0%nat [I 0%nat None 0]; E 0%nat [I 1%nat (Some 3) 0; {| i_id := 2; i_u := G; i_t := G |}];
-            E 0%nat [I 3%nat (Some 1) (Q_ 2 10000000000)]; E 7%nat [I 4%nat (Some 0) 0];
-            E 0%nat [I 5%nat (Some 2) tol]; E 0%nat [I 6%nat (Some 2) 0]] in
-  let best := {| c_what := Best; c_tol := Some tol; c_sources := [0%nat] |} in
-  let lastc := {| c_what := Last; c_tol := Some tol; c_sources := [0%nat] |} in
-  trace best init (map Emit h) = [None; Some 1; Some 1; Some 1; Some 5; Some 5]%nat /\
-  trace lastc init (map Emit h) = [Some 0; Some 1; Some 1; Some 1; Some 5; Some 6]%nat /\
+  let E src path items := {| e_type := 2; e_src := src; e_path := path; e_has_results := true;
+                             e_has_transformed := true; e_items := items |} in
+  let h := [E 0%nat [0%nat] [I 0%nat None 0]; E 0%nat [0%nat] [I 1%nat (Some 3) 0; {| i_id := 2; i_u := G; i_t := G |}];
+            E 0%nat [0%nat] [I 3%nat (Some 1) (Q_ 2 10000000000)]; E 7%nat [0%nat] [I 4%nat (Some 0) 0];
+            E 0%nat [5%nat] [I 7%nat (Some 0) 0];
+            E 0%nat [1%nat; 0%nat] [I 5%nat (Some 2) tol]; E 0%nat [0%nat] [I 6%nat (Some 2) 0]] in
+  let best := {| c_what := Best; c_tol := Some tol; c_sources := [0%nat]; c_plan := 0 |} in
+  let lastc := {| c_what := Last; c_tol := Some tol; c_sources := [0%nat]; c_plan := 0 |} in
+  let inner := {| c_what := Best; c_tol := Some tol; c_sources := [0%nat]; c_plan := 1 |} in
+  trace best init (map Emit h) = [None; Some 1; Some 1; Some 1; Some 1; Some 5; Some 5]%nat /\
+  trace lastc init (map Emit h) = [Some 0; Some 1; Some 1; Some 1; Some 1; Some 5; Some 6]%nat /\
+  trace inner init (map Emit h) = [None; None; None; None; None; Some 5; Some 5]%nat /\
   (forall p, In p (delivered best h) -> uval p == - oval (snd p)) /\
-  basic_optimizer 0 tol h = Some 5%nat /\
-  stored_id (track best init (map Emit h ++ Put None :: map Emit [E 0%nat [I 9%nat (Some 5) 0]])) = Some 9%nat.
+  basic_optimizer 0 (Some tol) (filter (fun ev => Nat.eqb (e_src ev) 0 && list_eqb Nat.eqb (e_path ev) [0%nat]) h) = Some 6%nat /\
+  basic_run 0 (filter (fun ev => Nat.eqb (e_src ev) 0 && list_eqb Nat.eqb (e_path ev) [0%nat]) h) /\
+  stored_id (track best init (map Emit h ++ Put None :: map Emit [E 0%nat [0%nat] [I 9%nat (Some 5) 0]])) = Some 9%nat.
 Proof.
-  cbv zeta. split; [vm_compute; reflexivity|]. split; [vm_compute; reflexivity|].
-  split; [|split; vm_compute; reflexivity].
-  intros p Hp. vm_compute in Hp. repeat (destruct Hp as [<-|Hp]; [vm_compute; reflexivity|]). destruct Hp.
+  cbv zeta. split; [vm_compute; reflexivity|]. split; [vm_compute; reflexivity|]. split; [vm_compute; reflexivity|].
+  split; [|split; [vm_compute; reflexivity|split; [|vm_compute; reflexivity]]].
+  - intros p Hp. vm_compute in Hp. repeat (destruct Hp as [<-|Hp]; [vm_compute; reflexivity|]). destruct Hp.
+  - intros ev Hev. vm_compute in Hev. repeat (destruct Hev as [<-|Hev]; [split; reflexivity|]). destruct Hev.
 Qed.
 
 Print Assumptions C12_best_is_argmin.
 Print Assumptions C12_held_is_feasible_and_lowest.
 Print Assumptions C12_never_displaced.
+Print Assumptions C12_unseen_is_identity.
+Print Assumptions C12_only_seen_events_matter.
+Print Assumptions C12_batch_is_sequence.
+Print Assumptions C12_best_from_any_state.
+Print Assumptions C12_put_new.
+Print Assumptions C12_reput_noop.
+Print Assumptions C12_best_monotone.
 Print Assumptions C12_never_blocked.
 Print Assumptions C12_last.
 Print Assumptions C12_sign_flip.
 Print Assumptions C12_reset.
 Print Assumptions C12_basic_optimizer.
+Print Assumptions C12_trace_is_track.
